@@ -572,3 +572,90 @@ Qed.
 (* ... and under Options.WhileToFor to that list with every while statement rewritten to `for ( ; c ; ) { body }` *)
 Theorem program_of_statement_fragment_w2f_proof : forall ts l, xprog ts l -> parse_xprogram true ts = Ok (map (tw true) l).
 Proof. intros ts l H. unfold parse_xprogram. rewrite (xprog_module true _ _ H) by lia. reflexivity. Qed.
+
+(* ---- non-vacuity: a program of the fragment, its derivation and its tree --------------------------------------------------
+     var i = a , b ;
+     for ( i = a ; i ; i ++ ) { if ( b ) break ; else continue l ; }
+     do a ; while ( b )
+     l : while ( a ) throw b ; { } a = b                                                                                     *)
+
+Definition kw (t : Z) : token := mkTok t false (tok_bytes t).
+Definition idi : token := idt 105.
+Definition idl0 : token := idt 108.
+Definition sm : token := semi false.
+
+Definition x_s1 : list token := [kw tt_VarToken; idi; kw tt_EqToken; ida; kw tt_CommaToken; idb; sm].
+Definition x_s2 : list token :=
+  [kw tt_ForToken; kw tt_OpenParenToken; idi; kw tt_EqToken; ida; sm; idi; sm; idi; kw tt_IncrToken; kw tt_CloseParenToken; kw tt_OpenBraceToken;
+   kw tt_IfToken; kw tt_OpenParenToken; idb; kw tt_CloseParenToken; kw tt_BreakToken; sm; kw tt_ElseToken; kw tt_ContinueToken; idl0; sm;
+   kw tt_CloseBraceToken].
+Definition x_s3 : list token := [kw tt_DoToken; ida; sm; kw tt_WhileToken; kw tt_OpenParenToken; idb; kw tt_CloseParenToken].
+Definition x_s4 : list token :=
+  [mkTok tt_IdentifierToken true [108]; colon; kw tt_WhileToken; kw tt_OpenParenToken; ida; kw tt_CloseParenToken; kw tt_ThrowToken; idb; sm].
+Definition x_s5 : list token := [kw tt_OpenBraceToken; kw tt_CloseBraceToken].
+Definition x_s6 : list token := [ida; kw tt_EqToken; idb].
+Definition x_tokens : list token := x_s1 ++ x_s2 ++ x_s3 ++ x_s4 ++ x_s5 ++ x_s6.
+
+Definition vi : expr := EVar [105].
+Definition x_stmts : list xstmt :=
+  [ XVar [([105], Some va); ([98], None)];
+    XFor (FExpr (EBinary tt_EqToken vi va)) (Some vi) (Some (EUnary tt_PostIncrToken vi))
+      [XIf vb (XBranch tt_BreakToken None) (Some (XBranch tt_ContinueToken (Some [108])))];
+    XDo (XExpr va) vb;
+    XLabel [108] (XWhile va (XThrow vb));
+    XBlock [];
+    XExpr (EBinary tt_EqToken va vb) ].
+
+Example x_example : parse_xprogram false x_tokens = Ok x_stmts.
+Proof. vm_compute. reflexivity. Qed.
+
+Lemma dE inf ts t : parse inf prec_OpExpr ts = Ok (t, []) -> derives inf Expression ts t.
+Proof. apply pratt_sound_proof. Qed.
+
+Lemma dA_ident inf c l : derives inf Assignment [mkTok tt_IdentifierToken l [c]] (EVar [c]).
+Proof.
+  eapply derives_chain_star; [apply (reachb_sound 22 Assignment Primary); lazy; reflexivity|].
+  apply (D_ident inf (mkTok tt_IdentifierToken l [c])). split; [reflexivity|vm_compute; discriminate].
+Qed.
+
+Example x_example_derivable : xprog x_tokens x_stmts.
+Proof.
+  unfold x_tokens, x_stmts.
+  (* var i = a , b ; *)
+  apply (XP_cons _ _ (x_s2 ++ x_s3 ++ x_s4 ++ x_s5 ++ x_s6)).
+  { apply (XO_var (kw tt_VarToken) _ _ (sm :: x_s2 ++ x_s3 ++ x_s4 ++ x_s5 ++ x_s6)); [reflexivity| |apply T_semi; reflexivity].
+    apply (V_more_init true idi (kw tt_EqToken) [ida] va (kw tt_CommaToken)); [reflexivity|reflexivity|apply dA_ident|reflexivity|].
+    apply V_one; reflexivity. }
+  (* for ( i = a ; i ; i ++ ) { if ( b ) break ; else continue l ; } *)
+  apply (XP_cons _ _ (x_s3 ++ x_s4 ++ x_s5 ++ x_s6)).
+  { eapply (XO_for_block (kw tt_ForToken) (kw tt_OpenParenToken) _ _ sm _ _ sm _ _ (kw tt_CloseParenToken) (kw tt_OpenBraceToken)); try reflexivity.
+    - apply (FI_expr [idi; kw tt_EqToken; ida] _ (sm :: _)); [apply dE; vm_compute; reflexivity|reflexivity|reflexivity].
+    - apply (FO_some tt_SemicolonToken [idi] _ (sm :: _)); [apply dE; vm_compute; reflexivity|reflexivity].
+    - apply (FO_some tt_CloseParenToken [idi; kw tt_IncrToken] _ (kw tt_CloseParenToken :: _)); [apply dE; vm_compute; reflexivity|reflexivity].
+    - apply (XL_cons _ _ (kw tt_CloseBraceToken :: x_s3 ++ x_s4 ++ x_s5 ++ x_s6)); [reflexivity| |apply XL_end; reflexivity].
+      eapply (XO_if_else (kw tt_IfToken) (kw tt_OpenParenToken) [idb] vb (kw tt_CloseParenToken) _ _ (kw tt_ElseToken)); try reflexivity.
+      + apply dE. vm_compute. reflexivity.
+      + apply (XO_branch (kw tt_BreakToken) (sm :: _)); [left; reflexivity| |apply T_semi; reflexivity].
+        intros c r' E. inversion E; subst. right. repeat split; vm_compute; discriminate.
+      + apply (XO_branch_label (kw tt_ContinueToken) idl0 (sm :: _)); [right; reflexivity|reflexivity|reflexivity|apply T_semi; reflexivity]. }
+  (* do a ; while ( b )   — no ';': the next statement starts a new line *)
+  apply (XP_cons _ _ (x_s4 ++ x_s5 ++ x_s6)).
+  { eapply (XO_do_asi (kw tt_DoToken) _ _ (kw tt_WhileToken) (kw tt_OpenParenToken) [idb] vb (kw tt_CloseParenToken)); try reflexivity.
+    - apply (XO_base _ (SExpr va)); [|intros; discriminate].
+      apply (O_semi [ida] va sm); [split; [apply dE; vm_compute; reflexivity|reflexivity]|reflexivity].
+    - apply dE. vm_compute. reflexivity. }
+  (* l : while ( a ) throw b ; *)
+  apply (XP_cons _ _ (x_s5 ++ x_s6)).
+  { apply XO_label; [repeat split; try reflexivity; vm_compute; discriminate|reflexivity| |reflexivity].
+    eapply (XO_while (kw tt_WhileToken) (kw tt_OpenParenToken) [ida] va (kw tt_CloseParenToken)); try reflexivity.
+    - apply dE. vm_compute. reflexivity.
+    - apply (XO_throw (kw tt_ThrowToken) [idb] vb (sm :: _)); [reflexivity|apply dE; vm_compute; reflexivity| |apply T_semi; reflexivity].
+      intros c xs' E. inversion E; subst. reflexivity. }
+  (* { } *)
+  apply (XP_cons _ _ x_s6).
+  { apply XO_block; [reflexivity|apply XL_end; reflexivity|reflexivity]. }
+  (* a = b *)
+  apply (XP_cons _ _ []); [|apply XP_nil].
+  apply (XO_base x_s6 (SExpr (EBinary tt_EqToken va vb))); [|intros; discriminate].
+  apply O_eof. split; [apply dE; vm_compute; reflexivity|reflexivity].
+Qed.
